@@ -247,7 +247,8 @@ def string_variants(types):
     yield 'token names', types
     for label, fd, fo in (('docs empty strings', lambda x: '', ident), ('docs blank', lambda x: '  ', ident), ('docs with surrounding space', lambda x: ' ' + x + ' ', ident),
                           ('all strings empty', lambda x: '', lambda x: ''), ('all strings with surrounding space', lambda x: ' ' + x + ' ', lambda x: ' ' + x + ' '),
-                          ('all strings upper case', lambda x: x.upper(), lambda x: x.upper()), ('all strings non-ascii', lambda x: x + '\u00e9\u4e16', lambda x: x + '\u00e9\u4e16')):
+                          ('all strings upper case', lambda x: x.upper(), lambda x: x.upper()), ('all strings non-ascii', lambda x: x + '\u00e9\u4e16', lambda x: x + '\u00e9\u4e16'),
+                          ('names with a raw-identifier prefix', ident, lambda x: 'r#' + x)):
         yield label, mapped(fd, fo)
 
 
